@@ -17,9 +17,20 @@ of its layers.  Ported statement by statement from
     (always after the name set has changed).
 * `Lib/defcon/objects/layerSet.py` `newLayer`, `__delitem__` (name → layer dict + layer order).
 
-State: the layers in layer order, each with the set of glyph names `layer.keys()` and a flag
-saying whether the font is registered for the layer's three notifications; and the value of
-`font.lib.get("public.glyphOrder")` (`none` = key absent).
+* `Lib/defcon/tools/notifications.py` `postNotification` (the observer-independent part: disabled
+  keys first, then held keys with `_isQueued` coalescing), `holdNotifications`,
+  `releaseHeldNotifications` (count, re-post of the queue in order), `disableNotifications`,
+  `enableNotifications` — for the key `(None, layer, None)` that `BaseObject.holdNotifications()` /
+  `disableNotifications()` of a layer use, and for the font's own key `(None, font, None)`.
+* `Lib/defcon/objects/layerSet.py` also `_set_defaultLayer`, `_set_layerOrder`, `_layerNameChange`.
+
+State: the layers in layer order, each with the set of glyph names `layer.keys()`, a flag
+saying whether the font is registered for the layer's three notifications, the hold count and the
+queue of held `Layer.GlyphAdded / GlyphDeleted / GlyphNameChanged` notifications of the layer, and
+its disable count; the value of `font.lib.get("public.glyphOrder")` (`none` = key absent); which
+layer is the default layer (`none` = the default layer object has been deleted from the layer set:
+`font.newGlyph` etc. then work on that detached, unobserved layer, whose name set is `ghost`); the
+hold count of the font's own notifications.
 
 Core Lean only; no imports outside this project.
 -/
@@ -30,11 +41,28 @@ namespace GlyphOrder
 
 abbrev Name := String
 
+/-- the three layer notifications the font listens to, with their `data` -/
+inductive Note where
+  /-- `Layer.GlyphAdded`, `data = {name}` -/
+  | added (n : Name)
+  /-- `Layer.GlyphDeleted`, `data = {name}` -/
+  | deleted (n : Name)
+  /-- `Layer.GlyphNameChanged`, `data = {oldValue, newValue}` -/
+  | renamed (old new : Name)
+deriving DecidableEq, Repr
+
 structure Layer where
   /-- `layer.keys()` : a Python set, kept as a duplicate-free list (compared as a set) -/
   glyphs : List Name := []
   /-- the font observes `Layer.GlyphAdded/GlyphDeleted/GlyphNameChanged` of this layer -/
   observed : Bool := false
+  /-- `dispatcher._holds[(None, layer, None)]["count"]` (0 = no such key) -/
+  held : Nat := 0
+  /-- `dispatcher._holds[(None, layer, None)]["notifications"]`, restricted to the three
+  notifications the font listens to (the only ones that can change the glyph order) -/
+  queue : List Note := []
+  /-- `dispatcher._disabled[(None, layer, None)]` (0 = no such key) -/
+  disabled : Nat := 0
 deriving DecidableEq, Repr
 
 structure Font where
@@ -42,10 +70,20 @@ structure Font where
   layers : List (String × Layer) := []
   /-- `font.lib.get("public.glyphOrder")` -/
   lib : Option (List Name) := none
+  /-- the name of `font.layers.defaultLayer` while that layer is in the layer set; `none` once it
+  has been deleted (`LayerSet.__delitem__` does not refuse, `_defaultLayer` keeps the object) -/
+  default : Option String := none
+  /-- `font.keys()` when `default = none`: the name set of the detached default layer -/
+  ghost : List Name := []
+  /-- `dispatcher._holds[(None, font, None)]["count"]` -/
+  fontHeld : Nat := 0
 deriving DecidableEq, Repr
 
 inductive Err where
   | keyError
+  | assertionError
+  /-- outside the modelled domain (see `renameLayer`); never produced by the generator -/
+  | unsupported
 deriving DecidableEq, Repr
 
 inductive Res where
@@ -70,6 +108,30 @@ inductive Op where
   | newLayer (name : String)
   /-- `del font.layers[name]` -/
   | delLayer (name : String)
+  /-- `font.layers[old].name = new` -/
+  | renameLayer (old new : String)
+  /-- `font.layers.layerOrder = names` -/
+  | setLayerOrder (names : List String)
+  /-- `font.layers.defaultLayer = font.layers[name]` -/
+  | setDefault (name : String)
+  /-- `font.newGlyph(g)` -/
+  | fontNewGlyph (g : Name)
+  /-- `font.insertGlyph(source, name=g)` -/
+  | fontInsertGlyph (g : Name)
+  /-- `del font[g]` -/
+  | fontDelGlyph (g : Name)
+  /-- `font.layers[layer].holdNotifications()` -/
+  | holdLayer (layer : String)
+  /-- `font.layers[layer].releaseHeldNotifications()` -/
+  | releaseLayer (layer : String)
+  /-- `font.layers[layer].disableNotifications()` -/
+  | disableLayer (layer : String)
+  /-- `font.layers[layer].enableNotifications()` -/
+  | enableLayer (layer : String)
+  /-- `font.holdNotifications()` -/
+  | holdFont
+  /-- `font.releaseHeldNotifications()` -/
+  | releaseFont
 deriving DecidableEq, Repr
 
 /-! ### Python primitives -/
@@ -156,24 +218,91 @@ def glyphDeletedCb (f : Font) (n : Name) : Font :=
 def glyphRenamedCb (f : Font) (old new : Name) : Font :=
   updateGlyphOrder f (some new) (if anyLayerHas f old then none else some old)
 
-/-! ### Layer operations (layer.py) and their notifications -/
+/-! ### Posting, holding, releasing (notifications.py) -/
 
 def setLayer (f : Font) (name : String) (l : Layer) : Font :=
   { f with layers := AL.set f.layers name l }
 
+/-- the font's callback for one notification (the font is the only observer that matters here) -/
+def deliver (f : Font) : Note → Font
+  | .added n => glyphAddedCb f n
+  | .deleted n => glyphDeletedCb f n
+  | .renamed o n => glyphRenamedCb f o n
+
+/-- `if not _isQueued(n, notifications): notifications.append(n)` — a notification equal (same
+name, same observable, equal data) to one already held is not held a second time -/
+def enqueue (q : List Note) (n : Note) : List Note := if n ∈ q then q else q ++ [n]
+
+/-- `layer.postNotification(note)`: `NotificationCenter.postNotification` for observable = the layer.
+Disabled keys are looked at first (the post is dropped), then held keys (the post is queued), then
+the registry: the font's callback runs iff the font observes the layer. -/
+def post (f : Font) (L : String) (note : Note) : Font :=
+  match AL.get? f.layers L with
+  | none => f
+  | some l =>
+    if l.disabled ≠ 0 then f
+    else if l.held ≠ 0 then setLayer f L { l with queue := enqueue l.queue note }
+    else if l.observed then deliver f note else f
+
+/-- `for … in notifications: self.postNotification(…)` after the hold key has been deleted -/
+def flush (f : Font) (L : String) : List Note → Font
+  | [] => f
+  | n :: ns => flush (post f L n) L ns
+
+/-- `font.layers[L].holdNotifications()` -/
+def holdLayer (f : Font) (L : String) : Font × Res :=
+  match AL.get? f.layers L with
+  | none => (f, .err .keyError)
+  | some l => (setLayer f L { l with held := l.held + 1 }, .ok)
+
+/-- `font.layers[L].releaseHeldNotifications()`: `self._holds[key]` raises KeyError when nothing is
+held; the count goes down; at zero the key is deleted and the queue is re-posted in order. -/
+def releaseLayer (f : Font) (L : String) : Font × Res :=
+  match AL.get? f.layers L with
+  | none => (f, .err .keyError)
+  | some l =>
+    if l.held = 0 then (f, .err .keyError)
+    else if l.held = 1 then
+      (flush (setLayer f L { l with held := 0, queue := [] }) L l.queue, .ok)
+    else (setLayer f L { l with held := l.held - 1 }, .ok)
+
+/-- `font.layers[L].disableNotifications()` -/
+def disableLayer (f : Font) (L : String) : Font × Res :=
+  match AL.get? f.layers L with
+  | none => (f, .err .keyError)
+  | some l => (setLayer f L { l with disabled := l.disabled + 1 }, .ok)
+
+/-- `font.layers[L].enableNotifications()`: `self._disabled[key] -= 1` raises KeyError when the
+layer is not disabled -/
+def enableLayer (f : Font) (L : String) : Font × Res :=
+  match AL.get? f.layers L with
+  | none => (f, .err .keyError)
+  | some l =>
+    if l.disabled = 0 then (f, .err .keyError)
+    else (setLayer f L { l with disabled := l.disabled - 1 }, .ok)
+
+/-! ### Layer operations (layer.py) and their notifications -/
+
 /-- `Layer.newGlyph(g)`: `_insertGlyph` (`_keys.add`, un-schedule a pending deletion), then
-`Layer.GlyphAdded` — delivered to the font iff it observes the layer. -/
+`Layer.GlyphAdded` is posted. -/
 def newGlyph (f : Font) (layer : String) (g : Name) : Font × Res :=
   match AL.get? f.layers layer with
   | none => (f, .err .keyError)                      -- font.layers[layer] raises KeyError
   | some l =>
-    let f1 := setLayer f layer { l with glyphs := addName l.glyphs g }
-    (if l.observed then glyphAddedCb f1 g else f1, .ok)
+    (post (setLayer f layer { l with glyphs := addName l.glyphs g }) layer (.added g), .ok)
 
-/-- `Layer.insertGlyph(source, name=g)`: hold the layer's notifications, `newGlyph(g)`,
-`copyDataFromGlyph` (does not touch names), release: the one `Layer.GlyphAdded` reaches the font
-after the copy, with the same name set as `newGlyph` leaves. -/
-def insertGlyph (f : Font) (layer : String) (g : Name) : Font × Res := newGlyph f layer g
+/-- `Layer.insertGlyph(source, name=g)`: `self.holdNotifications()`, `newGlyph(g)`,
+`copyDataFromGlyph` (does not touch names), `self.releaseHeldNotifications()`.  When nobody else
+holds the layer the one `Layer.GlyphAdded` reaches the font at the release, after the copy, with the
+same name set as `newGlyph` leaves; inside a user-level hold the release only lowers the count and
+the notification stays queued. -/
+def insertGlyph (f : Font) (layer : String) (g : Name) : Font × Res :=
+  match AL.get? f.layers layer with
+  | none => (f, .err .keyError)
+  | some _ =>
+    let f1 := (holdLayer f layer).1
+    let f2 := (newGlyph f1 layer g).1
+    ((releaseLayer f2 layer).1, .ok)
 
 /-- `Layer.__delitem__(g)`: KeyError unless `g in layer`; `_deleteGlyph`; `Layer.GlyphDeleted`. -/
 def delGlyph (f : Font) (layer : String) (g : Name) : Font × Res :=
@@ -181,8 +310,7 @@ def delGlyph (f : Font) (layer : String) (g : Name) : Font × Res :=
   | none => (f, .err .keyError)
   | some l =>
     if g ∈ l.glyphs then
-      let f1 := setLayer f layer { l with glyphs := removeName l.glyphs g }
-      (if l.observed then glyphDeletedCb f1 g else f1, .ok)
+      (post (setLayer f layer { l with glyphs := removeName l.glyphs g }) layer (.deleted g), .ok)
     else (f, .err .keyError)
 
 /-- `layer[old].name = new`: `Layer.__getitem__` raises KeyError unless `old in layer`;
@@ -196,9 +324,11 @@ def rename (f : Font) (layer : String) (old new : Name) : Font × Res :=
     if old ∈ l.glyphs then
       if old = new then (f, .ok)
       else
-        let f1 := setLayer f layer { l with glyphs := addName (removeName l.glyphs old) new }
-        (if l.observed then glyphRenamedCb f1 old new else f1, .ok)
+        (post (setLayer f layer { l with glyphs := addName (removeName l.glyphs old) new }) layer
+          (.renamed old new), .ok)
     else (f, .err .keyError)
+
+/-! ### Layer set operations (layerSet.py) -/
 
 /-- `LayerSet.newLayer(name)`: KeyError when the name is taken; the new (empty) layer is appended
 to the layer order; `LayerSet.LayerAdded` → `Font._layerAddedNotificationCallback` →
@@ -208,10 +338,93 @@ def newLayer (f : Font) (name : String) : Font × Res :=
   else (setLayer f name { glyphs := [], observed := true }, .ok)
 
 /-- `LayerSet.__delitem__(name)`: KeyError when absent; the font stops observing the layer
-(`LayerWillBeDeleted`), the layer leaves the set.  The glyph order is not consulted. -/
+(`LayerWillBeDeleted`), the layer leaves the set.  The glyph order is not consulted.  Nothing
+protects the default layer: `_defaultLayer` keeps pointing at the deleted object, which has no
+dispatcher any more — `font.newGlyph`, `del font[…]`, `font.keys()` go on working on it. -/
 def delLayer (f : Font) (name : String) : Font × Res :=
-  if AL.contains f.layers name then ({ f with layers := AL.erase f.layers name }, .ok)
+  match AL.get? f.layers name with
+  | none => (f, .err .keyError)
+  | some l =>
+    if f.default = some name then
+      ({ f with layers := AL.erase f.layers name, default := none, ghost := l.glyphs }, .ok)
+    else ({ f with layers := AL.erase f.layers name }, .ok)
+
+/-- the key `old` becomes `new`, in place (`_layers[new] = _layers.pop(old)`, `_layerOrder[index]`) -/
+def renameKey : List (String × Layer) → String → String → List (String × Layer)
+  | [], _, _ => []
+  | (k, v) :: r, old, new => if k = old then (new, v) :: r else (k, v) :: renameKey r old new
+
+/-- `font.layers[old].name = new`: KeyError when there is no layer `old`; nothing when the name is
+unchanged; otherwise `Layer.NameChanged` → `LayerSet._layerNameChange`.  The glyph order is not
+consulted; the font keeps observing the layer; the default layer stays the same object.
+NOT MODELLED (`unsupported`): renaming onto the name of another layer (`_layerNameChange` then drops
+that layer from the dict and leaves its name twice in the layer order), and renaming a layer whose
+notifications are held or disabled (`Layer.NameChanged` is then held or dropped with the rest, the
+layer set keeps the old key). -/
+def renameLayer (f : Font) (old new : String) : Font × Res :=
+  match AL.get? f.layers old with
+  | none => (f, .err .keyError)
+  | some l =>
+    if old = new then (f, .ok)
+    else if AL.contains f.layers new then (f, .err .unsupported)
+    else if l.held ≠ 0 ∨ l.disabled ≠ 0 then (f, .err .unsupported)
+    else
+      ({ f with layers := renameKey f.layers old new,
+                default := if f.default = some old then some new else f.default }, .ok)
+
+/-- the layers in the order `names` -/
+def reorder (ls : List (String × Layer)) (names : List String) : List (String × Layer) :=
+  names.filterMap (fun n => (AL.get? ls n).map (fun l => (n, l)))
+
+/-- `font.layers.layerOrder = names`: nothing when equal; `assert len(order) == len(self._layerOrder)`,
+`assert set(order) == set(self._layerOrder)` -/
+def setLayerOrder (f : Font) (names : List String) : Font × Res :=
+  if AL.keys f.layers = names then (f, .ok)
+  else if names.length = (AL.keys f.layers).length ∧ (∀ n ∈ names, n ∈ AL.keys f.layers) ∧
+      (∀ k ∈ AL.keys f.layers, k ∈ names) then
+    ({ f with layers := reorder f.layers names }, .ok)
+  else (f, .err .assertionError)
+
+/-- `font.layers.defaultLayer = font.layers[name]` (KeyError when there is no such layer) -/
+def setDefault (f : Font) (name : String) : Font × Res :=
+  if AL.contains f.layers name then ({ f with default := some name, ghost := [] }, .ok)
   else (f, .err .keyError)
+
+/-! ### Font-level glyph operations: `self._glyphSet` is `self._layers.defaultLayer` -/
+
+/-- `font.newGlyph(g)` -/
+def fontNewGlyph (f : Font) (g : Name) : Font × Res :=
+  match f.default with
+  | some L => newGlyph f L g
+  | none => ({ f with ghost := addName f.ghost g }, .ok)     -- the detached layer: no dispatcher
+
+/-- `font.insertGlyph(source, name=g)` -/
+def fontInsertGlyph (f : Font) (g : Name) : Font × Res :=
+  match f.default with
+  | some L => insertGlyph f L g
+  | none => ({ f with ghost := addName f.ghost g }, .ok)
+
+/-- `del font[g]` -/
+def fontDelGlyph (f : Font) (g : Name) : Font × Res :=
+  match f.default with
+  | some L => delGlyph f L g
+  | none =>
+    if g ∈ f.ghost then ({ f with ghost := removeName f.ghost g }, .ok) else (f, .err .keyError)
+
+/-- `font.keys()` -/
+def fontKeys (f : Font) : List Name :=
+  match f.default with
+  | some L => ((AL.get? f.layers L).map (·.glyphs)).getD []
+  | none => f.ghost
+
+/-! ### The font's own notifications (`Font.GlyphOrderChanged`, `Font.Changed`, …) -/
+
+/-- `font.holdNotifications()`: key `(None, font, None)` — the layers post under their own keys -/
+def holdFont (f : Font) : Font × Res := ({ f with fontHeld := f.fontHeld + 1 }, .ok)
+
+/-- `font.releaseHeldNotifications()` -/
+def releaseFont (f : Font) : Font × Res :=
+  if f.fontHeld = 0 then (f, .err .keyError) else ({ f with fontHeld := f.fontHeld - 1 }, .ok)
 
 /-- direct write to the lib: `font.lib["public.glyphOrder"] = v` / `del font.lib[...]`
 (`del` of an absent key raises KeyError) -/
@@ -229,6 +442,18 @@ def step (f : Font) : Op → Font × Res
   | .setLib v => setLib f v
   | .newLayer n => newLayer f n
   | .delLayer n => delLayer f n
+  | .renameLayer o n => renameLayer f o n
+  | .setLayerOrder ns => setLayerOrder f ns
+  | .setDefault n => setDefault f n
+  | .fontNewGlyph g => fontNewGlyph f g
+  | .fontInsertGlyph g => fontInsertGlyph f g
+  | .fontDelGlyph g => fontDelGlyph f g
+  | .holdLayer l => holdLayer f l
+  | .releaseLayer l => releaseLayer f l
+  | .disableLayer l => disableLayer f l
+  | .enableLayer l => enableLayer f l
+  | .holdFont => holdFont f
+  | .releaseFont => releaseFont f
 
 /-- the font after a whole history -/
 def run (f : Font) : List Op → Font
